@@ -35,6 +35,16 @@ CLAIM = {
 }
 
 EXTS = (".xgo", ".gox", ".gop", ".spx", ".gsh", ".gmx", ".tspx", ".tgmx", ".go")
+
+# deterministic witnesses of the known root causes (besides the corpus files that contain them)
+WITNESSES = [
+    b'echo c"hi"\n',                          # R1  c"..." literal: End short by the prefix
+    b"f := func() { println x }\n",           # R4  command-style call before a blank and "}"
+    b"x := 1 // c\necho x // d\n",            # R4  ... before a trailing comment
+    b"echo x  \n",                            # R4  ... before trailing blanks
+    b"for {\nL:\n}\n",                        # R6  label before "}": the implicit empty statement
+    b"switch x {\ncase 1:\nL:\n}\n",          # R6
+]
 # sha of the normalised source of File.End, which Model/C17.v models by hand
 FILE_END_SHA = None
 
@@ -49,12 +59,27 @@ def corpus_files(repo):
     return out
 
 
+def private_json(ctx, gens):
+    """The translator's JSON side copies, regenerated into this run's scratch directory
+    (build/gen is shared between concurrent runs, also with private worktrees)."""
+    import json
+    d = os.path.join(ctx.scratch, "genjson")
+    rc, out = ctx.run([os.path.join(vlib.BIN, "translator"), "-repo", vlib.REPO, "-out", os.path.join(ctx.scratch, "genv"),
+                       "-json", d] + list(gens), cwd=vlib.REPO, timeout=300)
+    if rc != 0:
+        ctx.broken("translator(%s)" % ",".join(gens), out[-800:])
+        return None, d
+    return {g: json.load(open(os.path.join(d, g + ".json"))) for g in gens}, d
+
+
 def run(ctx):
     gen_ok = ctx.regen(["aststructs", "astpos", "tokens"])
     ctx.prove("C17")
     model = ctx.model("c17")
     impl = ctx.harness("c17")
-    pj = ctx.gen_json("astpos")
+    js, jdir = private_json(ctx, ["astpos"])
+    # without the static bodies the run is already broken; the K-diff and the span oracle still search
+    pj = js["astpos"] if js else {"unparsed": ["<translator failed>"], "bodies": {}}
     # the only body outside the translated fragment must be File.End, and it must be the one modelled by hand
     unparsed = [u.split(":")[0] for u in pj["unparsed"]]
     src = (pj["bodies"].get("File", {}).get("End") or {}).get("src", "")
@@ -65,8 +90,8 @@ def run(ctx):
                              "unparsed bodies: %s; File.End source: %s" % (unparsed, src[:300]))
 
     files = corpus_files(vlib.REPO)
-    cases = ["file\t" + p for p in files]
-    ngen = ctx.n(1200, 40000)
+    cases = ["src\t" + w.hex() for w in WITNESSES] + ["file\t" + p for p in files]
+    ngen = ctx.n(800, 40000)
     cases += ["gen\t%d" % (ctx.rng.next() % (1 << 62)) for _ in range(ngen)]
     rc, out = ctx.run([impl, "run"], input="\n".join(cases) + "\n", timeout=600)
     if rc != 0:
@@ -92,14 +117,18 @@ def run(ctx):
         ctx.broken("correspondence(c17:model-run)", "cases=%d model lines=%d" % (len(live), len(mlines)))
         return
     ctx.log("model: Pos/End of every node of %d trees" % len(live))
-    rel = lambda c: c.replace(vlib.REPO + "/", "").replace("\t", ":")
+    def rel(c):
+        f = c.split("\t")
+        if f[0] == "src":
+            return "src:" + vlib.sha(bytes.fromhex(f[1]))
+        return c.replace(vlib.REPO + "/", "").replace("\t", ":")
     ctx.diff_lines("pe(pos_bodies)~Pos()/End()", [rel(cases[i]) for i in live],
                    "\n".join(res[i][1] for i in live), "\n".join(mlines))
 
     # C: the span oracle
     nodes = 0
     stats = {}
-    hist = {"file": 0, "file-parse-errors": 0, "gen": 0, "gen-parse-errors": 0, "noparse": 0}
+    hist = {"file": 0, "file-parse-errors": 0, "gen": 0, "gen-parse-errors": 0, "gen-damaged": 0, "src": 0, "src-parse-errors": 0, "noparse": 0}
     distinct = set()
     nfind = 0
     for i, r in enumerate(res):
@@ -108,7 +137,7 @@ def run(ctx):
         if r[0] == "-":
             hist["noparse"] += 1
             continue
-        hist[what + ("-parse-errors" if "parse-errors" in info else "")] += 1
+        hist[what + ("-parse-errors" if "parse-errors" in info else "-damaged" if "damaged" in info else "")] += 1
         distinct.add(vlib.sha(r[0]))
         for tok in info.split():
             if "=" in tok:
@@ -120,7 +149,10 @@ def run(ctx):
         if r[2] != "ok":
             for f in r[2].split(";"):
                 a, w, detail = (f.split("|", 2) + ["", ""])[:3]
-                key = "%s:%s:%s" % (rel(cases[i]).split(":", 1)[1], a, w)
+                ident = rel(cases[i])
+                if ident.startswith("file:"):
+                    ident = ident[5:]
+                key = "%s:%s:%s" % (ident, a, w)
                 nfind += 1
                 ctx.fail(key, "%s: %s %s: %s" % (rel(cases[i]), a, w, detail[:300]), {"case": rel(cases[i]), "finding": f})
     ctx.cover(evaluations=len(cases), distinct_nontrivial=len(distinct),
